@@ -49,6 +49,8 @@ def one_step(objs, how, o, protos):
 
 def replay_state(chk, store, st, pid, idx, protos):
     hist = st['hist']
+    if store.from_handle and any(h[0] == 'pickle' for h in hist):
+        return None       # an open file handle cannot be pickled by design
     base = store.load()
     base00 = float(base[0, 0])
     objs = [base]
@@ -87,6 +89,8 @@ def heap_part(chk, pid, store):
     for st in res.dump_states():
         if not st['hist']:
             continue
+        if store.from_handle and (any(h[0] == 'pickle' for h in st['hist']) or (idx % 7 and chk.quick)):
+            continue      # an open file handle cannot be pickled by design; handle-loaded samples: other derivations only
         idx += 1
         protos = [idx % 5, 5] if chk.quick else [0, 1, 2, 3, 4, 5]
         replay_state(chk, store, st, pid, idx, protos)
@@ -171,6 +175,7 @@ def main(chk, replay=None):
         print(json.dumps(replay, indent=1, default=core.jdefault)[:3000])
         return
     heap_part(chk, 'C20', hr.Store(float_file=False))
+    heap_part(chk, 'C20', hr.Store(float_file=False, from_handle=True))
     if not chk.quick:
         heap_part(chk, 'C20', hr.Store(float_file=True))
     file_level(chk)
